@@ -101,6 +101,17 @@ class Env:
         if not ok:
             raise ReplayMismatch("precondition false on the concrete input")
 
+    def nonneg(self, x):
+        """register a syntactic sum of squares as known non-negative (lets |t| resolve to t when t is polynomial-identical to it)"""
+        if not self.symbolic:
+            return
+        if isinstance(x, SR) and x.c is None:
+            if not x.nn:
+                raise ValueError("E.nonneg expects a syntactically non-negative value (sums/products of squares)")
+            t = z3.simplify(x.t)
+            if not any(p.eq(t) for p in sym.CTX.nonneg_pool):
+                sym.CTX.nonneg_pool.append(t)
+
     # ------------------------------------------------------------------ generic scalar ops for oracles
     def sqrt(self, x):
         if isinstance(x, (SR, SB)):
@@ -199,7 +210,7 @@ class Env:
         return bool((np.abs(A - B) <= scale).all())
 
     # ------------------------------------------------------------------ obligations
-    def prove(self, name, cond, groups=(), detail=None):
+    def prove(self, name, cond, groups=(), detail=None, hints=()):
         """obligation: cond must hold on this path for every value of the inputs"""
         self.reached.append(name)
         if not self.symbolic:
@@ -220,6 +231,26 @@ class Env:
         if detail:
             rec["detail"] = detail
         verdict, model = self._decide(phi, groups)
+        if verdict == "unknown" and not hints:
+            # undecided in general: look for a counterexample with every variable in a small integer box (finite-domain search;
+            # a model found here is a genuine model of the negated obligation and still has to survive the concrete replay)
+            ivars = list(sym.CTX.vars.values())
+            if ivars:
+                ks = [z3.Int(f"__b{i}") for i in range(len(ivars))]
+                box = [v == z3.ToReal(k) for v, k in zip(ivars, ks)] + [z3.And(k >= -2, k <= 2) for k in ks]
+                r, m = self._decide(phi, groups, extra=box, timeout_ms=8000)
+                if r == "sat":
+                    verdict, model = "sat", m
+        if verdict == "unknown" and hints:
+            # witness search: a hint is a sufficient condition for NOT phi that is easier to satisfy (e.g. exact cancellation)
+            ivars = list(sym.CTX.vars.values())
+            ks = [z3.Int(f"__h{i}") for i in range(len(ivars))]
+            box = [v == z3.ToReal(k) for v, k in zip(ivars, ks)] + [z3.And(k >= -3, k <= 3) for k in ks]
+            for h in hints:
+                r, m = self._decide(z3.Not(h), groups, extra=box, timeout_ms=10000)
+                if r == "sat":
+                    verdict, model = "sat", m
+                    break
         if verdict == "sat":
             verdict, info = self._confirm(name, phi, groups, model)
             rec.update(info)
@@ -251,7 +282,16 @@ class Env:
             # opt-in (E.fresh_solver = True): one-shot solver instead of push/pop on the path solver.  z3 then runs its
             # non-incremental strategy (nlsat), which decides rational-function identities the incremental core gives up on.
             s = z3.Solver()
-            fs = list(c.solver.assertions()) + list(self._assumptions(groups)) + list(extra) + [z3.Not(phi)]
+            # opt-in E.drop_path = "pc" | "all": prove under fewer hypotheses (sound): without the branch conditions of the
+            # path ("pc"), or with nothing but the listed fact groups and definedness ("all") -- for path-independent lemmas
+            dp = getattr(self, "drop_path", False)
+            if dp == "all":
+                base = []
+            elif dp == "pc":
+                base = list(c.facts.get("def", [])) + list(c.facts.get("pre", []))
+            else:
+                base = list(c.solver.assertions())
+            fs = base + list(self._assumptions(groups)) + list(extra) + [z3.Not(phi)]
             if getattr(self, "div_elim", False) and c.assume_defined:
                 # opt-in (E.div_elim = True, with fresh_solver): p/q -> p*inv_q with q*inv_q == 1 (see div_elim below)
                 fs = div_elim(fs)
@@ -263,19 +303,41 @@ class Env:
                 print("UNKNOWN:", s.reason_unknown(), flush=True)
             return r, m
         s = c.solver
-        s.push()
-        try:
-            for f in self._assumptions(groups):
-                s.add(f)
-            for f in extra:
-                s.add(f)
-            s.add(z3.Not(phi))
-            r = c._check(s, timeout_ms=timeout_ms or self.q_timeout_ms)
-            m = s.model() if r == "sat" else None
-            if r == "unknown" and os.environ.get("VT_DEBUG_UNKNOWN"):
-                print("UNKNOWN:", s.reason_unknown(), flush=True)
-        finally:
-            s.pop()
+        from . import ratnorm
+
+        assumptions = list(self._assumptions(groups)) + list(extra)
+        goal = z3.Not(phi)
+        attempts = []
+        if c.assume_defined:
+            # clear denominators in (dis)equalities: sound because every denominator is asserted non-zero
+            try:
+                g2, ch = ratnorm.clear_denominators(c.resolve_abs(goal))
+                a2 = []
+                for f in assumptions:
+                    f2, chf = ratnorm.clear_denominators(f)
+                    ch = ch or chf
+                    a2.append(f2)
+                if ch:
+                    attempts.append((a2, g2))
+            except Exception:
+                pass
+        attempts.append((assumptions, goal))
+        r, m = "unknown", None
+        budget = timeout_ms or self.q_timeout_ms
+        for i, (asm, g) in enumerate(attempts):
+            s.push()
+            try:
+                for f in asm:
+                    s.add(f)
+                s.add(g)
+                r = c._check(s, timeout_ms=budget if i == len(attempts) - 1 else max(2000, budget // 2))
+                m = s.model() if r == "sat" else None
+                if r == "unknown" and os.environ.get("VT_DEBUG_UNKNOWN"):
+                    print("UNKNOWN:", s.reason_unknown(), flush=True)
+            finally:
+                s.pop()
+            if r != "unknown":
+                break
         return r, m
 
     def _input_vars(self):
@@ -310,15 +372,19 @@ class Env:
             # same obligation already confirmed by replay on another path of this configuration
             return "violated", {"replay": self.confirmed[name], "duplicate_of_confirmed": True}
         if c.atoms:
-            extra = c.atom_defs(2)
-            r, m2 = self._decide(phi, groups, extra=extra, timeout_ms=min(self.q_timeout_ms, 30000))
-            if r == "unsat":
-                return "unsat", {"refined": True}
-            if r == "sat":
-                model = m2
-            else:
-                info["refine"] = "unknown"
-                extra = []
+            for level in (1, 2):
+                ex = c.atom_defs(level)
+                if level == 1 and not ex:
+                    continue
+                r, m2 = self._decide(phi, groups, extra=ex, timeout_ms=min(self.q_timeout_ms, 30000))
+                if r == "unsat":
+                    return "unsat", {"refined": level}
+                if r == "sat":
+                    model = m2
+                    extra = ex
+                else:
+                    info["refine"] = f"unknown at level {level}"
+                    break
         # nice (float-exact) model: integers in a small box, then quarter-integers
         ivars = self._input_vars()
         candidates = []
